@@ -368,6 +368,68 @@ def direct_config(ctx, spec, rng):
                          (axes,), "integrate", axes=list(axes), basis=list(basis))
     except Exception as ex:  # noqa: BLE001
         fail("integrate raised %r" % ex, "integrate-raises")
+    # --- operations do not mutate their operand; repeating a call repeats the result ------
+    try:
+        for basis in (b0, swapped):
+            arr = np.array(expected_coeffs(basis), dtype=float)   # the caller's array
+            arr0 = arr.copy()
+            p = Polynomial(arr, grid, basis, dirs, eps)
+
+            def same_poly(what, exact):
+                """caller's array untouched; object still holds the same polynomial"""
+                nonlocal n
+                n += 1
+                ok = np.array_equal(arr, arr0)
+                if exact:
+                    ok = ok and p.basis == basis and np.array_equal(p.coefficients, arr0)
+                else:
+                    q = Polynomial(np.array(p.coefficients), grid, p.basis, dirs, eps)
+                    q.changeBasis(basis)
+                    ok = ok and close(q.coefficients, arr0)
+                if not ok:
+                    fail("%s changed the polynomial it was applied to (or the caller's "
+                         "array)" % what, "operand-mutated", op=what, basis=list(basis))
+                return ok
+
+            if polyaxes:
+                pts = np.array([[rng.uniform(-1, 1) for _ in range(2)] for _ in polyaxes])
+                e1 = p.evaluate(pts, axes=tuple(polyaxes))
+                same_poly("evaluate", True)
+                e2 = p.evaluate(pts, axes=tuple(polyaxes))
+                d1 = p.derivative(tuple(polyaxes))
+                same_poly("derivative", True)
+                d2 = p.derivative(tuple(polyaxes))
+                n += 2
+                if not (np.array_equal(e1, e2) and
+                        np.array_equal(d1.coefficients, d2.coefficients)):
+                    fail("evaluate / derivative called twice give different results",
+                         "not-repeatable", op="evaluate/derivative")
+                # integrate without a weight, with weight=None, with weight=1 array
+                want = contract(A, [None if o is None else
+                                    np.pi / quad_n(o.M, o.N, o.d) *
+                                    np.sqrt(1 - o.nodes ** 2) @ o.V
+                                    for o in orc])
+                vals = []
+                for kw in ({}, {}, dict(weight=None), dict(weight=np.ones(arr.shape))):
+                    r = p.integrate(tuple(polyaxes), **kw)
+                    vals.append(r.coefficients if isinstance(r, Polynomial) else r)
+                    if not same_poly("integrate(%s)" % ",".join(kw), False):
+                        break
+                n += 1
+                sc = 1.0 + np.max(np.abs(A)) * 10 + np.max(np.abs(want))
+                if not all(close(v, want, scale=sc) for v in vals):
+                    fail("integrate without weight / weight=None / weight=1 / repeated "
+                         "give different or wrong values", "integrate-default-weight",
+                         basis=list(basis))
+            arr2 = arr0.copy()
+            q = Polynomial(arr2, grid, basis, dirs, eps)
+            q.changeBasis(tuple(other_basis(b) for b in basis))
+            n += 1
+            if not np.array_equal(arr2, arr0):
+                fail("changeBasis overwrote the caller's array", "operand-mutated",
+                     op="changeBasis", basis=list(basis))
+    except Exception as ex:  # noqa: BLE001
+        fail("purity checks raised %r" % ex, "purity-raises")
     # --- linearity (through the class's own + and *) -----------------------------------
     try:
         _, _, A3 = build(spec, rng)
@@ -691,6 +753,9 @@ def run(ctx):
         "np.linalg.inv returns the inverse of the basis matrix (validated: the forward "
         "model matrix applied to the implementation's output reproduces the input)",
         "binary64 rounding is not modelled (tolerance 2e-9 relative)",
+        "aliasing: the AST scan treats numpy arithmetic / np.array / scipy ufunc calls as "
+        "allocating and np.asarray / reshapes / attributes / arguments as views (validated "
+        "by the operand-unchanged and call-twice runs)",
         "numpy expand_dims/sum plumbing is validated by the rank<=4 runs against the "
         "model's nested-list operator and the numpy oracle, not proved"]
     ctx.trusted += ["numpy.polynomial.chebyshev (independent oracle of the direct checks)"]
